@@ -166,3 +166,13 @@ func VerifC02PrefixWrap() {
 	}
 	verifnd.Reach("C02.prefix.accepted")
 }
+
+// VerifC11PrefixWrap: "first-flight bytes arriving on phantom connections"
+// never crash or hang the station: the exploration of VerifC02PrefixWrap
+// (arbitrary bytes of every threshold length against every registry shape incl.
+// absent and typed-nil parameters) with only the implicit obligations checked.
+// verif:shards=14
+func VerifC11PrefixWrap() {
+	verifnd.PanicsOnly()
+	VerifC02PrefixWrap()
+}
